@@ -365,7 +365,7 @@ CLAIMED.update({
         text="Kernel-level partial claim on 'transpiled Python behaves like the compiled bytecode': the text written for a string literal of the program is <class>(K(x)) for one "
              "function K applied to the literal's value (or the token's content), and for every string of k characters (k <= 2 quick, <= 4 thorough; every Unicode scalar value for "
              "each character) K's text is exactly one double-quoted Python string literal that denotes the same string (quotes, backslashes, newlines, NUL, the octal-escape "
-             "digit-swallowing rule, \\x / \\u escapes). Everything else of the transpiler - statements, names and mangling, calls, classes, records, the runtime prelude - and whole-"
+             "digit-swallowing rule, \\x / \\u escapes); a natural-number literal is written as <class>(std's rendering of its value), not its source spelling (`007`). Everything else of the transpiler - statements, names and mangling, calls, classes, records, the runtime prelude - and whole-"
              "program behaviour under the interpreter are not decided.",
         note="Trusts rustc's MIR dump, engines/mirsem.py + mirflow.py, z3, the reference decoder of Python's literal syntax in props/c17.py (every counterexample is confirmed by "
              "CPython's own ast.literal_eval before it is reported), and the models of String::push / push_str / with_capacity / len, str::chars, Chars::next, str::replace::<char> "
